@@ -47,7 +47,9 @@ def elAccesses : List Access := [
   ⟨"EventLoop.schedule", "jobCount", true, false, []⟩,
   ⟨"EventLoop.schedule", "jobs", false, false, []⟩,
   ⟨"EventLoop.schedule", "jobs", true, false, []⟩,
+  ⟨"EventLoop.schedule", "vm", false, false, []⟩,
   ⟨"EventLoop.setImmediate", "jobCount", true, false, []⟩,
+  ⟨"EventLoop.setImmediate", "vm", false, false, []⟩,
   ⟨"EventLoop.setRunning", "canRun", true, true, ["stopLock"]⟩,
   ⟨"EventLoop.setRunning", "running", false, false, ["stopLock"]⟩,
   ⟨"EventLoop.setRunning", "running", true, false, ["stopLock"]⟩,
@@ -58,6 +60,38 @@ def elAccesses : List Access := [
   ⟨"NewEventLoop", "stopCond", true, false, []⟩,
   ⟨"NewEventLoop", "stopLock", false, false, []⟩,
   ⟨"WithRegistry$lit1", "registry", true, false, []⟩
+]
+
+def jobAccesses : List Access := [
+  ⟨"EventLoop.SetInterval$lit2", "idx", true, false, []⟩,
+  ⟨"EventLoop.SetTimeout$lit2", "idx", true, false, []⟩,
+  ⟨"EventLoop.Terminate", "cancel", false, false, []⟩,
+  ⟨"EventLoop.Terminate", "cancelled", false, false, []⟩,
+  ⟨"EventLoop.Terminate", "cancelled", true, false, []⟩,
+  ⟨"EventLoop.clearImmediate", "cancelled", false, false, []⟩,
+  ⟨"EventLoop.clearImmediate", "cancelled", true, false, []⟩,
+  ⟨"EventLoop.clearInterval", "cancelled", false, false, []⟩,
+  ⟨"EventLoop.clearInterval", "cancelled", true, false, []⟩,
+  ⟨"EventLoop.clearTimeout", "cancelled", false, false, []⟩,
+  ⟨"EventLoop.clearTimeout", "cancelled", true, false, []⟩,
+  ⟨"EventLoop.doImmediate", "cancelled", false, false, []⟩,
+  ⟨"EventLoop.doImmediate", "cancelled", true, false, []⟩,
+  ⟨"EventLoop.doImmediate", "fn", false, false, []⟩,
+  ⟨"EventLoop.doInterval", "cancelled", false, false, []⟩,
+  ⟨"EventLoop.doInterval", "fn", false, false, []⟩,
+  ⟨"EventLoop.doTimeout", "cancelled", false, false, []⟩,
+  ⟨"EventLoop.doTimeout", "cancelled", true, false, []⟩,
+  ⟨"EventLoop.doTimeout", "fn", false, false, []⟩,
+  ⟨"EventLoop.newInterval", "cancel", true, false, []⟩,
+  ⟨"EventLoop.newTimeout", "cancel", true, false, []⟩,
+  ⟨"EventLoop.removeJob", "idx", false, false, []⟩,
+  ⟨"EventLoop.removeJob", "idx", true, false, []⟩,
+  ⟨"EventLoop.schedule", "idx", true, false, []⟩,
+  ⟨"Interval.doCancel", "stopChan", false, false, []⟩,
+  ⟨"Interval.run", "ticker", false, false, []⟩,
+  ⟨"Interval.start", "ticker", true, false, []⟩,
+  ⟨"Timer.doCancel", "timer", false, false, []⟩,
+  ⟨"Timer.start", "timer", true, false, []⟩
 ]
 
 def eventLoopFields : List String := ["vm", "jobChan", "jobs", "jobCount", "canRun", "auxJobsLock", "wakeupChan", "auxJobsSpare", "auxJobs", "stopLock", "stopCond", "running", "terminated", "enableConsole", "registry"]
